@@ -21,6 +21,15 @@ pub struct Opts {
     pub bytes_from_file: bool,
 }
 
+thread_local! {
+    /// the file under test, for `Opts::bytes_from_file` (set by `check_plain`)
+    static FILE: std::cell::RefCell<Option<Rc<Vec<u8>>>> = std::cell::RefCell::new(None);
+}
+
+fn file_bytes(e: &Expect) -> Option<Vec<u8>> {
+    FILE.with(|f| f.borrow().as_ref().and_then(|b| b.get(e.offset as usize..e.offset as usize + e.size as usize).map(|x| x.to_vec())))
+}
+
 pub fn expected_bytes(e: &Expect) -> Vec<u8> {
     let mut v = Vec::with_capacity(e.size as usize);
     for i in 0..e.size as u64 {
@@ -66,7 +75,7 @@ pub fn check_samples<R: std::io::Read + std::io::Seek>(
             }
             match panicmon::catch(|| mp4.read_sample(tid, sid)) {
                 Ok(Ok(Some(s))) => {
-                    let want = expected_bytes(e);
+                    let want = if opts.bytes_from_file { file_bytes(e).unwrap_or_else(|| expected_bytes(e)) } else { expected_bytes(e) };
                     if s.bytes.as_ref() != &want[..] {
                         let pos = s.bytes.iter().zip(want.iter()).position(|(a, b)| a != b);
                         push(&mut f, "sample_bytes", json!({"track": tid, "sample": sid, "got_len": s.bytes.len(), "want_len": want.len(), "first_diff": pos, "want_offset": e.offset}));
@@ -134,7 +143,7 @@ pub fn check_samples<R: std::io::Read + std::io::Seek>(
         }
         match panicmon::catch(|| mp4.read_sample(tid, sid)) {
             Ok(Ok(Some(s))) => {
-                let want = expected_bytes(e);
+                let want = if opts.bytes_from_file { file_bytes(e).unwrap_or_else(|| expected_bytes(e)) } else { expected_bytes(e) };
                 if s.bytes.as_ref() != &want[..] || s.start_time != e.start || s.duration != e.delta || s.rendering_offset != e.cts || (opts.compare_sync && s.is_sync != e.sync) {
                     push(&mut f, "sample_in_another_order", json!({"track": tid, "sample": sid, "got": {"len": s.bytes.len(), "start": s.start_time, "dur": s.duration, "cts": s.rendering_offset, "sync": s.is_sync},
                         "want": {"len": want.len(), "start": e.start, "dur": e.delta, "cts": e.cts, "sync": e.sync, "offset": e.offset}, "bytes_equal": s.bytes.as_ref() == &want[..]}));
@@ -170,7 +179,12 @@ pub fn check_plain(bytes: &Rc<Vec<u8>>, movie: &Movie, expect: &[Vec<Expect>], o
         Err(e) => return vec![e],
     };
     let ids: Vec<u32> = movie.tracks.iter().map(|t| t.id).collect();
-    check_samples(&mut mp4, &ids, expect, opts)
+    if opts.bytes_from_file {
+        FILE.with(|f| *f.borrow_mut() = Some(bytes.clone()));
+    }
+    let r = check_samples(&mut mp4, &ids, expect, opts);
+    FILE.with(|f| *f.borrow_mut() = None);
+    r
 }
 
 /// One call result rendered for comparison (errors by variant + message; samples by all
